@@ -308,6 +308,35 @@ for k, (old, new) in NOTE_REPLACE.items():
     assert old in CLAIMED[k]["note"], (k, old)
     CLAIMED[k]["note"] = CLAIMED[k]["note"].replace(old, new)
 
+# third part of the work (DESIGN.md §12.9)
+EXTRA2 = {
+    "C02": " For adaptive solvers with extrinsic inputs a deviation above 1e-4 is judged against a DOP853 run at rtol 1e-12 "
+           "(the backend may be at most 10x further from it than the NumPy backend).",
+    "C04": " One case in five of the main arm delays a subset of the edges (2-7 steps; delayed and undelayed edges of one "
+           "source in any order).",
+    "C05": " Arm special_names: 70 variable names that mean something else somewhere in the tool chain (sympy constants, "
+           "singletons and function classes, names of generated variables) declared as parameter, state or input: the model "
+           "is refused or the name denotes the declared variable (value and argument).",
+    "C09": " A third of the cases run solver='heun' (exact reference: the corrector stage of step k reads the source of step "
+           "k+1-D). Arm alg_chain: the delayed source is an algebraic output that depends on an edge from an algebraic "
+           "variable of a node declared earlier or later, with delayed and undelayed targets of one type.",
+    "C10": " A third of the run cases are vectorized; a delay parameter may differ between the nodes that share the operator.",
+    "C11": " The gamma arm draws dde_approx in {0, 3, 5}: orders max(round((d/s)^2), n), plain delays become chains of n "
+           "stages of rate n/d (time units under every solver). The Connectivity forms of delay+spread are judged by C16.",
+    "C12": " A third of the models use x0..x3 (sympy's names for temporaries) as parameter and state names.",
+    "C13": " The first two models of a history may be built from the very same Operator/Node/EdgeTemplate objects; the sweep "
+           "arm also changes the float precision between the two translations and has an int_spelling variant (k: 2 in the "
+           "first model, k: 2.0 set to 0.37 in the second).",
+    "C15": " Variant rewrite: write, load, overwrite with the judged model, load again on ONE file without any cache reset, "
+           "the file named in slash, ./, dotted-directory or dotted notation.",
+    "C16": " Arm matrix_edges: the explicit network is built by CircuitTemplate.add_edges_from_matrix (non-square and "
+           "asymmetric sparsity patterns, scalar weights as full matrices, optional delays, vectorize on/off) and compared "
+           "with the reference; a third of the discrete Connectivity delays pass spread=0 explicitly.",
+    "C17": " One to three keys per sweep; permuted grids with three keys.",
+}
+for k, txt in EXTRA2.items():
+    CLAIMED[k]["text"] = CLAIMED[k]["text"] + txt
+
 NOT_YET = {}
 
 
